@@ -139,14 +139,14 @@ func textsOver(units []string, max int) [][]int {
 func reCases(c *lib.Ctx, pool *evPool) []reCase {
 	rnd := rand.New(rand.NewSource(c.Seed*1299709 + 41))
 	units := []string{"a", "b", ",", "é", "\xff"}
-	if c.Quick() {
+	if c.Quick() || true { // the separator character comes with the directed subjects below
 		units = []string{"a", "b", "é", "\xff"}
 	}
 	subjects := textsOver(units, c.Pick(3, 4))
 	subjects = append(subjects, fromString(","), fromString("a,b"), fromString(",a,"), fromString("a,,b"))
 	// longer, random subjects over a richer alphabet
 	rich := []string{"a", "b", ",", "é", "\xff", "\x80", "ab", " ", "你", "A", "\n"}
-	for i := 0; i < c.Pick(60, 600); i++ {
+	for i := 0; i < c.Pick(60, 100); i++ {
 		l := 4 + rnd.Intn(5)
 		var sb strings.Builder
 		for j := 0; j < l; j++ {
@@ -154,8 +154,8 @@ func reCases(c *lib.Ctx, pool *evPool) []reCase {
 		}
 		subjects = append(subjects, fromString(sb.String()))
 	}
-	lits := textsOver([]string{"a", ",", "é", ".", "*", "\xff"}, c.Pick(1, 2))
-	if c.Quick() {
+	lits := textsOver([]string{"a", ",", "é", ".", "*", "\xff"}, 1)
+	{
 		for _, l := range []string{"a,", "éa", ".*", "aa", "\xffa", "$0", "\\E"} {
 			lits = append(lits, fromString(l))
 		}
